@@ -162,7 +162,8 @@ impl Forge {
         let mut f = Vec::with_capacity(10 + self.body.len());
         f.push((self.dest & 0x7F) << 1);
         f.push(self.cmd_code);
-        let bc = (5 + self.body.len()) as i32 + self.byte_count_delta;
+        // bytes between the byte-count field and the PEC: source address 1 + transport header 4 + type 1 + body
+        let bc = (6 + self.body.len()) as i32 + self.byte_count_delta;
         f.push(bc as u8);
         f.push(((self.src & 0x7F) << 1) | 1);
         f.push(self.b4);
@@ -206,5 +207,10 @@ mod tests {
         assert!(pec_ok(&f));
         assert_eq!(crc8(&f), 0);
         assert_eq!(crc8(b"123456789"), 0xF4);
+    }
+    #[test]
+    fn forge_matches_known_frame() {
+        let f = Forge { dest: 0x22, src: 0x34, cmd_code: 0x0F, byte_count_delta: 0, b4: 0x01, dest_eid: 0x22, src_eid: 0x34, flags: 0xC8, b8: 0x05, body: vec![0x10, 0x84, 0x00, 0x00], good_pec: true };
+        assert_eq!(f.bytes(), vec![0x44, 0x0f, 0x0a, 0x69, 0x01, 0x22, 0x34, 0xc8, 0x05, 0x10, 0x84, 0x00, 0x00, 0x9c]);
     }
 }
